@@ -34,21 +34,29 @@ def conform(pattern, depth, names, values):
     return True, len(root.children) >= min(2, len(tokens(pattern)))
 
 
-def _mk(pattern, depth, tier, timeout, types=True):
+def order_splits(n):
+    """a covering family of preconditions: one per weak ordering chain a_p0 <= a_p1 <= ... of the hit starts (ties fall
+    into several members, which is harmless for a covering split)"""
+    import itertools
+
+    return [" and ".join(f"a{p[i]} <= a{p[i + 1]}" for i in range(n - 1)) for p in itertools.permutations(range(n))]
+
+
+def _mk(pattern, depth, tier, timeout, types=True, splits=()):
     ps = params(pattern, types=types)
     names = names_of(ps)
 
     def body(*values):
         return conform(pattern, depth, names, values)
 
-    name = f"conform_{pattern}_k{depth}" + ("" if types else "_notypes")
+    name = f"conform_{pattern}_k{depth}" + ("" if types else "_notypes") + ("_split" if splits else "")
     body.__name__ = name
     globals()[name] = body
     return Ob(name, body, ps, tier=tier, timeout=timeout, layer="A", functions=FUNCS, pre=pre(pattern),
               bound=f"root hits of kinds {pattern} (see harness/engine_common.py), free spans over a text of free "
                     f"length <= 24, free sub-hit spans, " + ("free type codes, " if types else "all types equal, ")
                     + f"depth limit {depth}",
-              path_timeout=60)
+              path_timeout=60, splits=list(splits))
 
 
 OBLIGATIONS = []
@@ -63,3 +71,7 @@ for pat in N4:
 for pat in ("PDp", "DdP", "PPP", "DpDp", "DpDd"):
     OBLIGATIONS.append(_mk(pat, 2, "both", 400))
     OBLIGATIONS.append(_mk(pat, 1, "both", 400))
+
+# N = 4 with the space split by the order of the hit starts (24 processes per pattern); types fixed to keep each part small
+for pat in ("PPPP", "PPDdP"):
+    OBLIGATIONS.append(_mk(pat, 3, "thorough", 1200, types=False, splits=order_splits(4)))
